@@ -169,7 +169,8 @@ def run(check):
     ctors = [c for c in walk_no_nested(loads.node, include_self=False) if isinstance(c, ast.Call) and
              isinstance(c.func, ast.Name) and loads.params and c.func.id == loads.params[0]]
     if not ctors:
-      r_e.cannot_decide('SafeUnpickler.loads: construction of the unpickler not recognised')
+      check.notes.append('SafeUnpickler.loads builds no unpickler of its own (judged by R-C01-frame-local)')
+      r_e.ok('no per-frame construction to judge', loads.loc())
     for c in ctors:
       enc = next((kw.value for kw in c.keywords if kw.arg == 'encoding'), None)
       if isinstance(enc, ast.Constant) and str(enc.value).lower().replace('-', '') == 'utf8':
@@ -178,6 +179,11 @@ def run(check):
         r_e.violate('pickled names decoded with the wrong encoding', loads, c, 'the unpickler is built with encoding=%s: metric names '
                     'pickled as 8-bit strings by python2 clients (UTF-8 bytes) are decoded as ASCII, so a non-ASCII name makes the '
                     'whole frame fail and be dropped' % (unparse(enc) if enc is not None else 'the default (ASCII)'))
+
+  # ------------------------------------------------------------------ pickle frames are decoded independently of each other
+  from .c11 import rule_frame_local
+  r_fl = check.rule('R-C01-frame-local', 1, rule_frame_local.__doc__)
+  rule_frame_local(check, cx, r_fl)
 
   # ------------------------------------------------------------------ routing
   r_r = check.rule('R-C01-routing', 3, 'metric, timestamp and value are routed to the positions the client encoded them in')
